@@ -41,6 +41,25 @@ func makeList(n int, tail float64) *listNode {
 	return head
 }
 
+type tailMarker struct{ K int }
+
+type tailNode struct {
+	V    int
+	Next *tailNode
+	T    *tailMarker
+}
+
+var isoListTail = func() *tailNode {
+	head := &tailNode{}
+	cur := head
+	for i := 1; i < 1100; i++ {
+		cur.Next = &tailNode{V: i}
+		cur = cur.Next
+	}
+	cur.T = &tailMarker{K: 7}
+	return head
+}()
+
 type failingField struct {
 	A int
 	B string
@@ -129,6 +148,17 @@ func isoDescriptors() []isoDesc {
 			}()
 			return jsonv2.Marshal([]any{1, map[string]any{"k": panicMarshaler{}}})
 		}),
+		// user code panics far below the depth where cycle detection starts; another call then
+		// marshals the very same pointers
+		mk("marshal-deep-user-panic", func() (b []byte, err error) {
+			defer func() {
+				if r := recover(); r != nil {
+					err = fmt.Errorf("recovered: %v", r)
+				}
+			}()
+			return jsonv2.Marshal(isoListTail, jsonv2.WithMarshalers(jsonv2.MarshalToFunc(func(e *jsontext.Encoder, t *tailMarker) error { panic("user code panics deep") })))
+		}),
+		mk("marshal-deep-same-pointers", func() ([]byte, error) { return jsonv2.Marshal(isoListTail) }),
 		mk("marshal-deep-nan", func() ([]byte, error) { return jsonv2.Marshal(isoListBad) }),
 		mk("marshal-deep-good", func() ([]byte, error) { return jsonv2.Marshal(isoListGood) }),
 		mk("marshal-cyclic", func() ([]byte, error) { return jsonv2.Marshal(isoCyclic) }),
@@ -180,9 +210,12 @@ func isoDescriptors() []isoDesc {
 			for i := range in {
 				in[i] = '#'
 			}
+			errText := fmt.Sprint(err)
 			return render(out, err), func() bool {
 				again, _ := jsonv2.Marshal(tgt, jsonv2.Deterministic(true))
-				return bytes.Equal(again, out)
+				// the error handed back is a value of the call too: it must not change with the
+				// caller's buffer or with later calls
+				return bytes.Equal(again, out) && fmt.Sprint(err) == errText
 			}
 		}}
 	}
@@ -200,6 +233,15 @@ func isoDescriptors() []isoDesc {
 			jsonv2.WithUnmarshalers(jsonv2.UnmarshalFromFunc(func(d *jsontext.Decoder, x *any) error { return errors.ErrUnsupported }))),
 		un("unmarshal-type-error", []byte(`{"A":"not a number","B":[1]}`), func() any { return new(small) }),
 	)
+	ds = append(ds, isoDesc{"unmarshalread-type-error", func() ([]byte, func() bool) {
+		var v struct {
+			Pad string
+			N   int8
+		}
+		err := jsonv2.UnmarshalRead(&scriptedReader{data: []byte(`{"Pad":"`+strings.Repeat("p", 200)+`","N":3000000}`), chunks: []int{64}}, &v)
+		errText := fmt.Sprint(err)
+		return render(nil, err), func() bool { return fmt.Sprint(err) == errText }
+	}})
 	ds = append(ds, isoDesc{"unmarshalread-chunked", func() ([]byte, func() bool) {
 		var v any
 		err := jsonv2.UnmarshalRead(&scriptedReader{data: isoWide, chunks: []int{7, 64, 1, 300}}, &v)
